@@ -10,14 +10,24 @@
      rf_wbusy   resp0_ctx_recv (message already waiting) raises the send descriptor
                 only if the survey's pipe is idle, as resp0_pipe_recv_cb does
      rf_rclose  resp0_pipe_close clears the receive descriptor when it removes the
-                last pipe holding a survey *)
+                last pipe holding a survey
+     rf_sbusy   resp0_ctx_send refuses (NNG_ESTATE) a send while the context's previous
+                send is still queued behind a busy pipe.  The pinned source appends the
+                context to the pipe's list a second time: NNI_ASSERT panic in
+                nni_list_append (a corrupted list and a lost aio without assertions);
+                the model shows the double entry and the overwritten saio
+     rf_wother  when another context's response makes the pipe busy from which the
+                socket's own context holds a survey, the send descriptor is cleared
+     rf_wstale  when the socket's own context receives a survey whose pipe is busy, the
+                send descriptor (possibly still raised for an unanswered earlier survey)
+                is cleared *)
 From Coq Require Import List Arith NArith Bool ZArith.
 From NngV Require Import Proto.Common Proto.SurveyBacktrace Proto.SurveyModel.
 Import ListNotations.
 
-Record resp_fix := mkRfix { rf_nb : bool; rf_wbusy : bool; rf_rclose : bool }.
-Definition rfix_none : resp_fix := mkRfix false false false.
-Definition rfix_all : resp_fix := mkRfix true true true.
+Record resp_fix := mkRfix { rf_nb : bool; rf_wbusy : bool; rf_rclose : bool; rf_sbusy : bool; rf_wother : bool; rf_wstale : bool }.
+Definition rfix_none : resp_fix := mkRfix false false false false false false.
+Definition rfix_all : resp_fix := mkRfix true true true true true true.
 
 Record rctx := mkRctx {
   rc_pipe : N;                       (* ctx->pipe_id, 0 = none *)
@@ -156,7 +166,8 @@ Definition resp_step (fx : resp_fix) (s : resp) (o : pop) : resp * list pout :=
                   | Some c =>
                       match rc_raio c with
                       | Some a =>
-                          let w := if N.eqb k 0 && negb (rp_busy x) then true else rs_writable s in
+                          let w := if N.eqb k 0 then (if negb (rp_busy x) then true else if rf_wstale fx then false else rs_writable s)
+                                   else rs_writable s in
                           (mkResp (kset k (mkRctx p (pm_hdr msg) (rc_saio c) None) (rs_ctxs s)) (rs_pipes s)
                                   (rs_recvpipes s) rest (rs_ttl s) (rs_readable s) w,
                            [TranRecv p; Complete a E_OK (Some (mkPmsg [] body))])
@@ -180,9 +191,13 @@ Definition resp_step (fx : resp_fix) (s : resp) (o : pop) : resp * list pout :=
                    let msg := mkPmsg (rc_bt cx) (pm_body m) in
                    let lp := live_pipe (rc_pipe cx) (rs_pipes s0) in
                    let wouldq := match lp with Some x => rp_busy x | None => false end in
-                   if rf_nb fx && nb && wouldq then (s0, [Complete a E_AGAIN None])
+                   if rf_sbusy fx && (match rc_saio cx with Some _ => true | None => false end)
+                   then (s0, [Complete a E_STATE None])
+                   else if rf_nb fx && nb && wouldq then (s0, [Complete a E_AGAIN None])
                    else
-                     let s1 := if N.eqb k 0 then rset_w s0 false else s0 in
+                     let s1 := if N.eqb k 0 || (rf_wother fx && N.eqb (rc_pipe cx) (main_pipe s0) &&
+                                                  match lp with Some x => negb (rp_busy x) | None => false end)
+                               then rset_w s0 false else s0 in
                      match lp with
                      | None =>
                          (rset_ctxs s1 (kset k (mkRctx 0 [] (rc_saio cx) (rc_raio cx)) (rs_ctxs s1)),
@@ -219,7 +234,8 @@ Definition resp_step (fx : resp_fix) (s : resp) (o : pop) : resp * list pout :=
                   match rp_rmsg x with
                   | msg :: _ =>
                       let r := if isnil rest then false else rs_readable s in
-                      let w := if N.eqb k 0 && (negb (rf_wbusy fx) || negb (rp_busy x)) then true else rs_writable s in
+                      let w := if N.eqb k 0 then (if negb (rf_wbusy fx) || negb (rp_busy x) then true else if rf_wstale fx then false else rs_writable s)
+                               else rs_writable s in
                       (mkResp (kset k (mkRctx p (pm_hdr msg) (rc_saio cx) (rc_raio cx)) (rs_ctxs s))
                               (kset p (mkRpipe (rp_busy x) (rp_closed x) (rp_sendq x) (rp_held x) []) (rs_pipes s))
                               rest (rs_recvq s) (rs_ttl s) r w,
